@@ -159,3 +159,30 @@ func VerifC15_blind_signature_verifies() {
 	}
 	vReach("verified")
 }
+
+// C15 (blinding is a function of its arguments, also when used from several goroutines): the
+// blinding operations keep no state between or across calls. Symbolically every write to memory
+// that outlives the call is reported; natively the calls run concurrently under the race detector.
+func VerifC15_blinding_is_reentrant() {
+	vUnwind(140)
+	vUseModels("edabs")
+	priv := NewKeyFromSeed(vBytes("seed", 32, 32))
+	pk := []byte(priv[32:])
+	blind := vBytes("blind", 32, 32)
+	ctx := vBytesC("ctx", 0, 1)
+	msg := vBytesC("msg", 0, 1)
+	op := vSplit(vInt("operation", 0, 2), 0, 2)
+	vSharedBegin()
+	vConcurrently(func() {
+		switch op {
+		case 0:
+			_, _ = BlindPublicKeyWithContext(pk, blind, ctx)
+		case 1:
+			_, _ = UnblindPublicKeyWithContext(pk, blind, ctx)
+		default:
+			_ = BlindKeySignWithContext(priv, msg, blind, ctx)
+		}
+	})
+	vSharedEnd()
+	vReach("called")
+}
